@@ -253,6 +253,9 @@ func init() {
 		reG, reGb := &geojson.Geometry{}, &geojson.Geometry{}
 		reF, reFb := &geojson.Feature{}, &geojson.Feature{}
 		reFC, reFCb := &geojson.FeatureCollection{}, &geojson.FeatureCollection{}
+		var prevKept geojson.Feature
+		prevKeptText := ""
+		keptIn := newWkbIntern() // one interner for the kept value's before / after texts (ids of seen values are stable)
 		var prevOut, prevCopy [][]byte
 		stable := func(outs ...[]byte) int {
 			ok := 1
@@ -273,10 +276,14 @@ func init() {
 			in := newWkbIntern()
 			// package configuration: for every fifth event the package marshals / unmarshals through a caller-supplied codec
 			// (here one that simply forwards to encoding/json): nothing observable may change
-			if i%5 == 4 {
+			geojson.CustomJSONMarshaler, geojson.CustomJSONUnmarshaler = nil, nil
+			switch i % 10 {
+			case 4:
 				geojson.CustomJSONMarshaler, geojson.CustomJSONUnmarshaler = stdJSON{}, stdJSON{}
-			} else {
-				geojson.CustomJSONMarshaler, geojson.CustomJSONUnmarshaler = nil, nil
+			case 7:
+				geojson.CustomJSONMarshaler = stdJSON{} // only one of the two hooks set
+			case 9:
+				geojson.CustomJSONUnmarshaler = stdJSON{}
 			}
 			switch i % 4 {
 			case 0: // bare geometry (non-empty: a top-level null is not a geometry document)
@@ -356,7 +363,7 @@ func init() {
 			case 1, 2: // feature
 				f := c02Feature(c)
 				fm := featModel(in, f)
-				e := jdoc{"k": "feat", "f": fm, "err": "", "same": 0, "nt": 1, "routes": 0, "stable": 0, "idb": 1}
+				e := jdoc{"k": "feat", "f": fm, "err": "", "same": 0, "nt": 1, "routes": 0, "stable": 0, "idb": 1, "kept": 1, "insame": 1}
 				setCurrent("geojson.Feature", fm)
 				site := guard(func() {
 					data, err := f.MarshalJSON()
@@ -408,6 +415,17 @@ func init() {
 						return
 					}
 					e["re"] = featModel(in, reF)
+					// the value decoded for the previous feature event was kept (by value, as a decoding loop appending *f does):
+					// decoding the next document into the same variable must leave it alone
+					if prevKeptText != "" && fmt.Sprint(featModel(keptIn, &prevKept)) != prevKeptText {
+						e["kept"] = 0
+					}
+					prevKept = *reF
+					prevKeptText = fmt.Sprint(featModel(keptIn, &prevKept))
+					// marshalling does not change its input
+					if fmt.Sprint(featModel(in, f)) != fmt.Sprint(fm) {
+						e["insame"] = 0
+					}
 					if err := bson.Unmarshal(bdata, reFb); err != nil {
 						e["err"] = "bson, reused value: " + err.Error()
 						return
@@ -468,7 +486,7 @@ func init() {
 					return jdoc{"feats": feats, "bbox": bbox, "extra": ex}
 				}
 				m := model(fc)
-				e := jdoc{"k": "fc", "fc": m, "err": "", "same": 0, "nt": 1, "routes": 0, "stable": 0}
+				e := jdoc{"k": "fc", "fc": m, "err": "", "same": 0, "nt": 1, "routes": 0, "stable": 0, "insame": 1}
 				setCurrent("geojson.FeatureCollection", m)
 				site := guard(func() {
 					data, err := fc.MarshalJSON()
@@ -508,6 +526,9 @@ func init() {
 						return
 					}
 					e["re"] = model(reFC)
+					if fmt.Sprint(model(fc)) != fmt.Sprint(m) { // marshalling (JSON and BSON) left the collection, and its foreign members, as they were
+						e["insame"] = 0
+					}
 					if err := bson.Unmarshal(bdata, reFCb); err != nil {
 						e["err"] = "bson, reused value: " + err.Error()
 						return
